@@ -60,8 +60,8 @@ impl C13 {
                 prog.body.iter().find_map(kind).unwrap_or("match")
             };
             let k = cases.len();
-            cases.push(SurfCase { prog: prog.clone(), naming: Naming::Distinct, twin_of: None, infinite: false, tag });
-            cases.push(SurfCase { prog, naming: Naming::Clash, twin_of: Some(k), infinite: false, tag });
+            cases.push(SurfCase { prog: prog.clone(), naming: Naming::Distinct, twin_of: None, infinite: false, ordered: false, tag });
+            cases.push(SurfCase { prog, naming: Naming::Clash, twin_of: Some(k), infinite: false, ordered: false, tag });
         }
                 (cases, vec![])
     }
